@@ -480,6 +480,150 @@ pub fn encode_msg(v: &Value) -> Message {
 }
 
 // ---------------------------------------------------------------------------------------
+// Scripted local side of a bridge (C13): an AsyncBufRead + AsyncWrite whose answers for the next
+// poll of the bridge are set by the driver, and which records what the bridge did to it.
+// ---------------------------------------------------------------------------------------
+#[derive(Clone, Debug)]
+pub struct Ans {
+    pub k: String,
+    pub n: usize,
+}
+impl Ans {
+    pub fn from_json(v: &Value) -> Self {
+        Self { k: v["k"].as_str().unwrap_or("pending").to_string(), n: v["n"].as_u64().unwrap_or(0) as usize }
+    }
+    pub fn pending() -> Self {
+        Self { k: "pending".into(), n: 0 }
+    }
+}
+#[derive(Default)]
+pub struct LocalState {
+    pub tag: u32,
+    pub rd: VecDeque<Ans>,
+    pub wr: VecDeque<Ans>,
+    pub fl: Option<Ans>,
+    pub sh: Option<Ans>,
+    pub avail: Vec<u8>,
+    pub loff: u64,
+    pub eof: bool,
+    pub written: Vec<Vec<u8>>,
+    pub consumed: usize,
+    pub shut_calls: usize,
+    pub flush_calls: usize,
+    pub holds: std::collections::BTreeSet<String>,
+}
+pub struct ScriptedLocal(pub Arc<Mutex<LocalState>>);
+
+fn io_err() -> std::io::Error {
+    std::io::Error::other("scripted local failure")
+}
+
+impl tokio::io::AsyncRead for ScriptedLocal {
+    fn poll_read(self: Pin<&mut Self>, cx: &mut Context<'_>, buf: &mut ReadBuf<'_>) -> Poll<std::io::Result<()>> {
+        use tokio::io::AsyncBufRead;
+        let mut this = self;
+        let got = match this.as_mut().poll_fill_buf(cx) {
+            Poll::Pending => return Poll::Pending,
+            Poll::Ready(Err(e)) => return Poll::Ready(Err(e)),
+            Poll::Ready(Ok(b)) => b[..b.len().min(buf.remaining())].to_vec(),
+        };
+        buf.put_slice(&got);
+        this.consume(got.len());
+        Poll::Ready(Ok(()))
+    }
+}
+impl tokio::io::AsyncBufRead for ScriptedLocal {
+    fn poll_fill_buf(self: Pin<&mut Self>, _cx: &mut Context<'_>) -> Poll<std::io::Result<&[u8]>> {
+        let this = self.get_mut();
+        {
+            let mut l = this.0.lock().unwrap();
+            if l.avail.is_empty() && !l.eof {
+                let a = l.rd.pop_front().unwrap_or_else(Ans::pending);
+                match a.k.as_str() {
+                    "data" if a.n > 0 => {
+                        let (tag, off) = (l.tag, l.loff);
+                        l.avail = payload(tag, off, a.n);
+                        l.loff += a.n as u64;
+                    }
+                    "data" | "eof" => l.eof = true,
+                    "err" => return Poll::Ready(Err(io_err())),
+                    _ => {
+                        l.holds.insert("l_rd".into());
+                        return Poll::Pending;
+                    }
+                }
+            }
+        }
+        // hand out the current buffer (empty = end of input)
+        let l = this.0.lock().unwrap();
+        let ptr = l.avail.as_ptr();
+        let len = l.avail.len();
+        drop(l);
+        // SAFETY-free alternative: copy into a leaked box would leak; instead keep a private copy
+        // in the object itself. We reconstruct a slice from the Vec that lives inside the Arc and is
+        // only mutated by `consume`/`poll_fill_buf` on this same object, never concurrently.
+        Poll::Ready(Ok(unsafe { std::slice::from_raw_parts(ptr, len) }))
+    }
+    fn consume(self: Pin<&mut Self>, amt: usize) {
+        let mut l = self.0.lock().unwrap();
+        let amt = amt.min(l.avail.len());
+        l.avail.drain(..amt);
+        l.consumed += amt;
+    }
+}
+impl AsyncWrite for ScriptedLocal {
+    fn poll_write(self: Pin<&mut Self>, _cx: &mut Context<'_>, buf: &[u8]) -> Poll<std::io::Result<usize>> {
+        let mut l = self.0.lock().unwrap();
+        let a = l.wr.pop_front().unwrap_or_else(Ans::pending);
+        match a.k.as_str() {
+            "ready" => {
+                let k = a.n.max(1).min(buf.len());
+                l.written.push(buf[..k].to_vec());
+                Poll::Ready(Ok(k))
+            }
+            "err" => Poll::Ready(Err(io_err())),
+            _ => {
+                l.holds.insert("l_wr".into());
+                Poll::Pending
+            }
+        }
+    }
+    fn poll_flush(self: Pin<&mut Self>, _cx: &mut Context<'_>) -> Poll<std::io::Result<()>> {
+        let mut l = self.0.lock().unwrap();
+        l.flush_calls += 1;
+        let a = l.fl.clone().unwrap_or_else(|| Ans { k: "ready".into(), n: 0 });
+        match a.k.as_str() {
+            "ready" => Poll::Ready(Ok(())),
+            "err" => Poll::Ready(Err(io_err())),
+            _ => {
+                l.holds.insert("l_fl".into());
+                Poll::Pending
+            }
+        }
+    }
+    fn poll_shutdown(self: Pin<&mut Self>, _cx: &mut Context<'_>) -> Poll<std::io::Result<()>> {
+        let mut l = self.0.lock().unwrap();
+        l.shut_calls += 1;
+        let a = l.sh.clone().unwrap_or_else(|| Ans { k: "ready".into(), n: 0 });
+        match a.k.as_str() {
+            "ready" => Poll::Ready(Ok(())),
+            "err" => Poll::Ready(Err(io_err())),
+            _ => {
+                l.holds.insert("l_sh".into());
+                Poll::Pending
+            }
+        }
+    }
+}
+
+pub struct BridgeSlot {
+    /// the future is kept after completion (it still owns the stream) until `bridge_drop`
+    pub done: bool,
+    pub fut: Option<BoxFut<std::io::Result<(usize, usize)>>>,
+    pub local: Arc<Mutex<LocalState>>,
+}
+
+// ---------------------------------------------------------------------------------------
 // Endpoint
 // ---------------------------------------------------------------------------------------
 pub type Mux = Multiplexor<ScriptRng>;
@@ -502,6 +646,7 @@ pub struct Endpoint {
     pub binds: BTreeMap<u32, BoxFut<penguin_mux::Result<bool>>>,
     pub breqs: BTreeMap<u32, BindRequest<'static>>,
     pub next_r: u32,
+    pub bridges: BTreeMap<u32, BridgeSlot>,
     pub script: Arc<Mutex<VecDeque<u32>>>,
     pub drawn: Arc<Mutex<Vec<u32>>>,
     pub cfg: Value,
@@ -618,6 +763,7 @@ impl Sim {
                 binds: BTreeMap::new(),
                 breqs: BTreeMap::new(),
                 next_r: 1,
+                bridges: BTreeMap::new(),
                 script,
                 drawn,
                 cfg: cfgs[i].to_json(),
@@ -1022,6 +1168,76 @@ impl Sim {
                     return false;
                 }
                 self.emit(json!({"ev": "bind_drop", "e": e, "r": r, "res": "ok"}));
+                true
+            }
+            "bridge_start" => {
+                let h = cmd["h"].as_u64().unwrap() as u32;
+                let Some(slot) = self.eps[i].streams.remove(&h) else { return false };
+                let b = self.eps[i].bridges.len() as u32 + 1;
+                let local = Arc::new(Mutex::new(LocalState { tag: h, loff: slot.woff, ..LocalState::default() }));
+                let fut: BoxFut<std::io::Result<(usize, usize)>> =
+                    Box::pin(slot.s.into_copy_bidirectional_with_buf(ScriptedLocal(local.clone())));
+                self.eps[i].bridges.insert(b, BridgeSlot { done: false, fut: Some(fut), local });
+                self.emit(json!({"ev": "bridge_start", "e": e, "h": h, "b": b}));
+                true
+            }
+            "bridge_poll" => {
+                let b = cmd["b"].as_u64().unwrap() as u32;
+                let env = cmd["env"].clone();
+                let Some(br) = self.eps[i].bridges.get_mut(&b) else { return false };
+                if br.fut.is_none() || br.done {
+                    return false;
+                }
+                {
+                    let mut l = br.local.lock().unwrap();
+                    l.rd = env["rd"].as_array().map(|a| a.iter().map(Ans::from_json).collect()).unwrap_or_default();
+                    l.wr = env["wr"].as_array().map(|a| a.iter().map(Ans::from_json).collect()).unwrap_or_default();
+                    l.fl = Some(Ans::from_json(&env["fl"]));
+                    l.sh = Some(Ans::from_json(&env["sh"]));
+                    l.written.clear();
+                    l.consumed = 0;
+                    l.shut_calls = 0;
+                    l.flush_calls = 0;
+                    l.holds.clear();
+                }
+                let w = self.wakers.get(&format!("br:{e}:{b}"));
+                let mut cx = Context::from_waker(&w);
+                let p = br.fut.as_mut().unwrap().as_mut().poll(&mut cx);
+                let (res, rn, wn) = match p {
+                    Poll::Pending => ("pending".to_string(), 0, 0),
+                    Poll::Ready(Ok((r, wv))) => {
+                        br.done = true;
+                        ("ok".to_string(), r, wv)
+                    }
+                    Poll::Ready(Err(_)) => {
+                        br.done = true;
+                        ("err".to_string(), 0, 0)
+                    }
+                };
+                let l = br.local.lock().unwrap();
+                let lw: Vec<Value> = l
+                    .written
+                    .iter()
+                    .map(|x| {
+                        let (w, off, ok) = decode_run(x);
+                        json!({"w": w, "off": off, "n": x.len(), "okrun": ok})
+                    })
+                    .collect();
+                let holds: Vec<String> = l.holds.iter().cloned().collect();
+                let ev = json!({"ev": "bridge_poll", "e": e, "b": b, "env": env, "res": res, "rn": rn, "wn": wn,
+                    "lw": lw, "lc": l.consumed, "shut": l.shut_calls, "fl": l.flush_calls.min(1), "holds": holds});
+                drop(l);
+                self.emit(ev);
+                true
+            }
+            "bridge_drop" => {
+                let b = cmd["b"].as_u64().unwrap() as u32;
+                let Some(br) = self.eps[i].bridges.get_mut(&b) else { return false };
+                if br.fut.is_none() {
+                    return false;
+                }
+                br.fut = None;
+                self.emit(json!({"ev": "bridge_drop", "e": e, "b": b, "res": "ok"}));
                 true
             }
             "task" => {
